@@ -183,7 +183,7 @@ func init() {
 	core.Register(&core.Check{
 		ID:    "C10",
 		Level: "exploration",
-		Rule: "literal contents are all strings of up to k atoms over an alphabet rich in < > & ; # quotes, letters/digits that spell existing entities (&lt; &amp;lt; &#39; &#34 …) and UTF-8, in both quote styles, placed in every usage context of the statement (printed, concatenated, assigned, array element printed/indexed/iterated, object field, ternary arm, then() argument, insert argument, insert block, component argument, slot body, layout text) and under raw(); 12 contexts in which the value is first used by a concatenation through then()/rand()/an element access or by append/prepend/slice/reverse on the same array and only then printed; component arguments that read page variables named like other keys of the call; " +
+		Rule: "literal contents are all strings of up to k atoms over an alphabet rich in < > & ; # quotes, letters/digits that spell existing entities (&lt; &amp;lt; &#39; &#34 …) and UTF-8, in both quote styles, placed in every usage context of the statement (printed, concatenated, assigned, array element printed/indexed/iterated, object field, ternary arm, then() argument, insert argument, insert block, component argument, slot body, layout text) and under raw(); 12 contexts in which the value is first used by a concatenation through then()/rand()/an element access or by append/prepend/slice/reverse on the same array and only then printed; component arguments that read page variables named like other keys of the call; literals spanning lines (LF, CRLF, CR) or holding '%' through strings, files and Response (page and custom error page); " +
 			"the rendered segment is isolated by delimiters and must contain no raw < or >, only entity '&'s, the same quotes, unescape to the literal byte for byte; raw() must give the literal exactly. distinct_nontrivial = distinct (context, literal, quote) sources",
 		Assumptions: []string{
 			"a literal is written with a backslash before its delimiter quote; contents ending in a backslash or containing backslash-quote cannot be written and are skipped",
@@ -214,6 +214,17 @@ func init() {
 				}})
 			// the value is used by something else before it is printed
 			secs = append(secs, seqSections("reuse-literal-", escapeAtoms, kt, func(c *core.Ctx, l string) { runIn(c, l, reuseContexts) })...)
+			// literals that span lines (LF, CRLF, CR) or hold a percent sign: through strings, through template
+			// files, and written by Response (the page itself and the custom error page of a failing page)
+			special := []string{"a\nb", "a\r\nb", "a\rb", "<\r\n>", "\r\n", "\n", "line1\r\nline2\r\n<b>&", "tab\tbed", "100%", "%d", "%s <b> %v", "50% & <more>", "%", "%%", "%!", "a%20b", "%[1]d&", "\r\n%\r\n"}
+			secs = append(secs, core.Section{Name: "multi-line-and-percent-literals", Exhaustive: true, N: len(special),
+				Run: func(c *core.Ctx, i int) {
+					runLit(c, special[i])
+					runIn(c, special[i], reuseContexts)
+					runTreeLiteral(c, special[i])
+					runResponseLiteral(c, special[i])
+				}})
+			secs = append(secs, seqSections("response-literal-", escapeAtoms, 2, func(c *core.Ctx, l string) { runResponseLiteral(c, l) })...)
 			// template-tree contexts: insert argument, insert block, component argument, slot body
 			secs = append(secs, seqSections("tree-literal-", escapeAtoms, kt, func(c *core.Ctx, l string) { runTreeLiteral(c, l) })...)
 			return secs
@@ -297,6 +308,65 @@ func runTreeLiteral(c *core.Ctx, l string) {
 				judgeSegment(c, "slot-body", files["comp.tw"], "[["+parts[1]+"]]", l, false)
 				judgeSegment(c, "slot-body-raw", files["comp.tw"], "[["+parts[2]+"]]", l, true)
 				judgeSegment(c, "component-argument-raw", files["comp.tw"], "[["+parts[3]+"]]", l, true)
+			}
+		}
+	}
+}
+
+// runResponseLiteral writes the literal through Response: as part of a page that renders, and as part of
+// the custom error page of a page that fails
+func runResponseLiteral(c *core.Ctx, l string) {
+	for _, q := range []byte{'"', '\''} {
+		if !model.CanQuote(l, q) {
+			continue
+		}
+		quoted := model.QuoteString(l, q)
+		files := map[string]string{
+			"errors/oops.tw": "E[[{{ " + quoted + " }}]]",
+			"errors/raw.tw":  "R[[{{ " + quoted + ".raw() }}]]",
+			"fine.tw":        "F[[{{ " + quoted + " }}]]",
+			"fails.tw":       "before {{ 1 / zero }} after",
+		}
+		if err := writeFilesFresh("c10resp", files); err != nil {
+			c.Inconclusive(err.Error())
+			return
+		}
+		for _, errPage := range []string{"errors/oops", "errors/raw"} {
+			textwire.VerifResetConfig()
+			var tpl *textwire.Template
+			var err error
+			c.Eval(1)
+			if c.Guard(func() {
+				tpl, err = textwire.NewTemplate(&config.Config{TemplateDir: "c10resp", TemplateExt: ".tw", ErrorPagePath: errPage})
+			}) {
+				return
+			}
+			if err != nil || tpl == nil {
+				c.Violation("escape:response:load", fmt.Sprintf("loading failed: %v", err), map[string]any{"literal": l, "files": files})
+				return
+			}
+			c.Nontrivial("response:" + errPage + quoted)
+			for _, page := range []string{"fine", "fails"} {
+				rec := newRecorder()
+				var rerr error
+				c.Eval(1)
+				if c.Guard(func() { rerr = tpl.Response(rec, page, map[string]any{"zero": 0}) }) {
+					continue
+				}
+				body := rec.body.String()
+				src := files[page+".tw"]
+				switch {
+				case page == "fine":
+					if rerr != nil {
+						c.Violation("escape:response:error", "Response failed: "+rerr.Error(), map[string]any{"literal": l})
+						continue
+					}
+					judgeSegment(c, "response-page", src, body, l, false)
+				case rerr == nil:
+					c.Violation("escape:response:no-error", "a failing page gave no error", map[string]any{"literal": l})
+				default:
+					judgeSegment(c, "response-custom-error-page", files[errPage+".tw"], body, l, errPage == "errors/raw")
+				}
 			}
 		}
 	}
